@@ -28,6 +28,7 @@ NodeState.velocity_control (memory and persisted copy)            `Node.vc : Vel
 NodeState::htlc_fulfilled                                         `Node.fulfill`
 Node::get_heartbeat: prune_invoices, prune_forwarded_payments     `Node.heartbeat`
 persisted NodeStateEntry {invoices, preimages}                    `Disk`
+NodeState.issued_invoices, Node::sign_bolt11_invoice               `Node.issued`, `Node.diskIssued`, `Node.issue`
 NodeState::restore + Channel::restore_payments                    `Node.restart`
 
 Finite maps are total functions `key → Option value` (no key-order or duplicate-key questions);
@@ -166,6 +167,11 @@ structure Node where
   payments : Hash → Option Payment
   chans : Chan → ChanSt
   disk : Disk
+  /-- `NodeState.issued_invoices`: invoices this node ISSUED (receiving side, `sign_bolt11_invoice`), in memory
+      and as last persisted.  They never approve anything: no payment entry is created for them, neither when
+      they are issued nor by a restart. -/
+  issued : Hash → Option Invoice
+  diskIssued : Hash → Option Invoice
   /-- `policy.global_velocity_control` and the node-wide control (memory / persisted copy) -/
   spec : Velocity.Spec
   vc : Velocity.NodeVC
@@ -173,6 +179,7 @@ structure Node where
 def Node.init (nch : Nat) (pol : Policy) (spec : Velocity.Spec := ⟨0, .unlimited⟩) : Node :=
   { nch := nch, pol := pol, invoices := fun _ => none, known := [], payments := fun _ => none,
     chans := fun _ => ChanSt.init, disk := ⟨fun _ => none, fun _ => false⟩,
+    issued := fun _ => none, diskIssued := fun _ => none,
     spec := spec, vc := Velocity.NodeVC.ofSpec spec }
 
 inductive VRes | ok | err | panic
@@ -297,7 +304,15 @@ def Node.revoke (n : Node) (c : Chan) : Node × VRes :=
 /-- `persister.update_node`: invoices, preimages and the velocity control as they are in memory -/
 def Node.persist (n : Node) : Node :=
   { n with disk := ⟨n.invoices, fun h => match n.payments h with | some p => p.pre | none => false⟩,
+           diskIssued := n.issued,
            vc := { n.vc with disk := n.vc.mem } }
+
+/-- `sign_bolt11_invoice`: the node issues an invoice for `h`.  Same invoice again = Ok without effect, a different
+    one for the same hash = Err, zero-amount invoices are not remembered.  Nothing is persisted, no payment entry. -/
+def Node.issue (n : Node) (h : Hash) (inv : Invoice) : Node × Bool :=
+  match n.issued h with
+  | some old => (n, old.id = inv.id)
+  | none => (if inv.amount > 0 then { n with issued := upd n.issued h (some inv) } else n, true)
 
 inductive ARes | added | same | different | declined | panic
 deriving DecidableEq, Repr
@@ -345,10 +360,17 @@ def Node.pr (n : Node) (now : Nat) (h : Hash) : Bool :=
   | _, _ => false
 def Node.inv1 (n : Node) (now : Nat) : Hash → Option Invoice := fun h => if n.pr now h then none else n.invoices h
 def Node.pay1 (n : Node) (now : Nat) : Hash → Option Payment := fun h => if n.pr now h then none else n.payments h
-/-- `prune_forwarded_payments` (after `prune_invoices`): no invoice, nothing incoming, nothing outgoing -/
+/-- `prune_issued_invoices`: kept iff `timestamp + expiry + prune_time > now` -/
+def Node.issPruned (n : Node) (now : Nat) (h : Hash) : Bool :=
+  match n.issued h with
+  | some inv => !(inv.deadline > now)
+  | none => false
+def Node.iss1 (n : Node) (now : Nat) : Hash → Option Invoice := fun h => if n.issPruned now h then none else n.issued h
+/-- `prune_forwarded_payments` (after `prune_invoices` and `prune_issued_invoices`): no invoice, no issued invoice,
+    nothing incoming, nothing outgoing -/
 def Node.fw (n : Node) (now : Nat) (h : Hash) : Bool :=
   match n.pay1 now h with
-  | some p => (n.inv1 now h).isNone && sumCh n.nch p.inc == 0 && sumCh n.nch p.out == 0
+  | some p => (n.inv1 now h).isNone && (n.iss1 now h).isNone && sumCh n.nch p.inc == 0 && sumCh n.nch p.out == 0
   | none => false
 def Node.pay2 (n : Node) (now : Nat) : Hash → Option Payment := fun h => if n.fw now h then none else n.pay1 now h
 
@@ -356,8 +378,8 @@ def Node.pay2 (n : Node) (now : Nat) : Hash → Option Payment := fun h => if n.
     `missing payments struct` panic of `prune_invoices`. The node state is persisted iff something was pruned. -/
 def Node.heartbeat (n : Node) (now : Nat) : Option Node :=
   if n.known.any (fun h => (n.invoices h).isSome && (n.payments h).isNone) then none else
-  let n' := { n with invoices := n.inv1 now, payments := n.pay2 now }
-  some (if n.known.any (fun h => n.pr now h || n.fw now h) then n'.persist else n')
+  let n' := { n with invoices := n.inv1 now, payments := n.pay2 now, issued := n.iss1 now }
+  some (if n.known.any (fun h => n.pr now h || n.issPruned now h || n.fw now h) then n'.persist else n')
 
 /-- `restore_payments` of one channel on the payments map being rebuilt -/
 def restoreChan (chans : Chan → ChanSt) (payments : Hash → Option Payment) (c : Chan) : Hash → Option Payment :=
@@ -384,6 +406,7 @@ def Node.restart (n : Node) : Node :=
     else if n.disk.pre h then some { Payment.new with pre := true } else none
   -- `Node::new_full`: the restored velocity control, `update_spec(policy)` applied
   { n with invoices := n.disk.invoices, payments := restoreAll n.chans n.nch base,
+           issued := n.diskIssued,
            vc := { n.vc with mem := n.vc.disk.restart n.spec } }
 
 inductive Op
@@ -393,6 +416,7 @@ inductive Op
   | cpRevoke (c : Chan)
   | approve (h : Hash) (inv : Invoice) (now : Nat)
   | decline (h : Hash) (inv : Invoice)
+  | issue (h : Hash) (inv : Invoice)
   | fulfill (h : Hash)
   | heartbeat (now : Nat)
   | restart
@@ -403,6 +427,7 @@ def Op.mentioned : Op → List Hash
   | .hValidate _ _ i => hashes i.inc ++ hashes i.out
   | .approve h _ _ => [h]
   | .decline h _ => [h]
+  | .issue h _ => [h]
   | .fulfill h => [h]
   | _ => []
 
@@ -419,6 +444,7 @@ def Node.exec (n : Node) : Op → Option (Node × Bool)
       | (n', .added) => some (n', true) | (_, .same) => some (n, true) | (_, .different) => some (n, false)
       | (n', .declined) => some (n', false) | (_, .panic) => none
   | .decline h inv => some (n, n.proposeDeclined h inv == .same)
+  | .issue h inv => some (n.issue h inv)
   | .fulfill h => some ((n.fulfill h).1, true)
   | .heartbeat now => (n.heartbeat now).map (fun n' => (n', true))
   | .restart => some (n.restart, true)
